@@ -203,7 +203,7 @@ fn replay(dir: &str) -> i32 {
         "faults" => engines::faults::replay(case),
         "c02" => engines::c02::replay(case),
         "c12" => engines::c12::replay(case),
-        "c11" => engines::c11::replay(case),
+        "c11" | "c11-types" => engines::c11::replay(case),
         "c20" => engines::c20::replay(case),
         "c18" => engines::c18::replay(case),
         "c19" | "c19-law" => engines::c19::replay(case),
